@@ -353,12 +353,12 @@ func c01NT(c c01Case, edge []string) (bool, []string) {
 	return nt, cl
 }
 
-const c01Rule = "method drawn from a generated grid of 99 signatures (0-6 params x optional ctx x {none,value,error,(value,error)} x raw params; 14 param types rotated so that every type occurs at every position) x edge-biased typed arguments and results x 5 name formatters; each case runs over ws, http and custom transports. Non-trivial = >=3 params, or ctx + >=2 params, or an argument/result in an edge class (nil pointer, nil vs empty slice/map, 64-bit extremes, -0/1e308/5e-324, HTML/control/4-byte strings, raw JSON, custom marshaler, custom param codec, nil interface), or raw params; distinct by descriptor hash"
+const c01Rule = "method drawn from a generated grid of 99 signatures (0-6 params x optional ctx x {none,value,error,(value,error)} x raw params; 14 param types rotated so that every type occurs at every position) x edge-biased typed arguments and results x 5 name formatters; each case runs over ws, http and custom transports; plus hand-written methods whose single result type is not error but has an Error method (exit code, status record). Non-trivial = >=3 params, or ctx + >=2 params, or an argument/result in an edge class (nil pointer, nil vs empty slice/map, 64-bit extremes, -0/1e308/5e-324, HTML/control/4-byte strings, raw JSON, custom marshaler, custom param codec, nil interface), or raw params; distinct by descriptor hash"
 
 func TestC01(t *testing.T) {
 	rec := NewRec("C01", c01Rule)
 	defer rec.Finish(t)
-	rec.RequireClass("arg_nil_ptr", "arg_nil_slice", "arg_empty_slice", "arg_int_extreme", "arg_neg_zero", "arg_html_string", "arg_ctrl_string", "arg_custom_param_codec", "arg_custom_marshaler", "raw_params_method", "handler_error", "nparams_6", "with_ctx", "res_nil_ptr")
+	rec.RequireClass("special_result_code", "special_result_status", "arg_nil_ptr", "arg_nil_slice", "arg_empty_slice", "arg_int_extreme", "arg_neg_zero", "arg_html_string", "arg_ctrl_string", "arg_custom_param_codec", "arg_custom_marshaler", "raw_params_method", "handler_error", "nparams_6", "with_ctx", "res_nil_ptr")
 	env, err := newC01Env()
 	if err != nil {
 		t.Fatalf("env: %v", err)
@@ -372,6 +372,16 @@ func TestC01(t *testing.T) {
 			return nil
 		}
 		return env.run(c)
+	})
+	t.Run("special-results", func(t *testing.T) {
+		se := newC01SpecEnv()
+		defer se.Close()
+		for _, spec := range []string{"code", "status", "pair"} {
+			for _, x := range []int{0, 1, -1, 7, 255, -32000, 1 << 40} {
+				c := c01SpecCase{Spec: spec, X: x, M: "m<&>\u2028"}
+				rec.Run(t, c, true, []string{"special_result_" + spec}, func() *Violation { return se.run(c) })
+			}
+		}
 	})
 	t.Run("grid", func(t *testing.T) {
 		fixed := map[string]string{"I64": "-42", "U64": "42", "F64": "2.5", "Str": `"s<>"`, "Bool": "true", "Bytes": `"AQI="`, "Ints": "[1,2]", "MapSS": `{"k":"v"}`,
@@ -421,6 +431,12 @@ func TestC01Replay(t *testing.T) {
 	}
 	defer env.Close()
 	Replay(t, "C01", 1, func(raw json.RawMessage) *Violation {
+		var sc c01SpecCase
+		if json.Unmarshal(raw, &sc) == nil && sc.Spec != "" {
+			se := newC01SpecEnv()
+			defer se.Close()
+			return se.run(sc)
+		}
 		var c c01Case
 		if err := json.Unmarshal(raw, &c); err != nil {
 			return nil
